@@ -75,6 +75,7 @@ def axis_case(kind, decl, coords, bounded, rng, tier):
             if kind == 'range' and start + count > n:
                 count, start = max(0, min(count, n - 1)), min(start, 1)
             lines.append('axisv %d %d' % (count, start))
+            lines.append('axisrt %d %d' % (count, start))
     return Case(lines, 'gen:' + kind)
 
 def cases(tier, seed, rng):
